@@ -5,7 +5,7 @@
    the call (None = undefined).  [rejects x] = exists r, x = Reject r. *)
 From Coq Require Import Permutation.
 From FrameModel Require Import Num.QcTac Geometry.Rect Yaml.Tree Yaml.NetlistRead
-  Yaml.NetlistFacts Yaml.NetlistDerived.
+  Yaml.NetlistWrite Yaml.NetlistFacts Yaml.NetlistDerived Yaml.NetlistRoundTrip.
 Open Scope Qc_scope.
 
 (* ---- derived quantities ---- *)
@@ -138,3 +138,12 @@ Theorem C05_reject_nonpositive_rect_size : forall sqrt_o e t name info v r,
   rejects (read_netlist sqrt_o e t).
 Proof. exact reject_nonpositive_rect_size. Qed.
 Print Assumptions C05_reject_nonpositive_rect_size.
+
+(* ---- acceptance ---- *)
+(* every canonical design (Yaml/NetlistRoundTrip.v), written in the exchange
+   format, is accepted *)
+Theorem C05_accept_well_formed : forall sqrt_o e n,
+  NetlistRoundTrip.canonical sqrt_o e n ->
+  exists n', read_netlist sqrt_o e (NetlistWrite.write_netlist n) = Ok n'.
+Proof. exact NetlistRoundTrip.accept_well_formed. Qed.
+Print Assumptions C05_accept_well_formed.
